@@ -16,6 +16,7 @@
 #include <sys/wait.h>
 #include <sys/resource.h>
 #include <sys/time.h>
+#include <sys/stat.h>
 
 using namespace ezc3d;
 typedef ParametersNS::GroupNS::Parameter Param;
@@ -75,6 +76,7 @@ static std::string z(long long v) { return std::to_string(v); }
     catch (const std::logic_error&) { fprintf(g_out, "throw logic_error\n"); } \
     catch (const std::bad_alloc&) { fprintf(g_out, "throw bad_alloc\n"); } \
     catch (const std::exception&) { fprintf(g_out, "throw exception\n"); } \
+    catch (const std::string& s) { fprintf(g_out, "%s\n", s.c_str()); } \
     catch (...) { fprintf(g_out, "throw unknown\n"); }
 
 // ---------- dumps ----------
@@ -155,7 +157,12 @@ static void readFrameLit(Toks& tk, Frame& f) {
     size_t ns = tk.u64();
     for (size_t s = 0; s < ns; ++s) {
         SubFrame sf; size_t nc = tk.u64();
-        for (size_t i = 0; i < nc; ++i) { Channel ch; ch.name(tk.str()); ch.data(tk.flt()); sf.channel(ch); }
+        for (size_t i = 0; i < nc; ++i) {
+            Channel ch; ch.name(tk.str());
+            if (tk.more() && tk.t[tk.i] == "u") tk.next();     // value never set by the caller
+            else ch.data(tk.flt());
+            sf.channel(ch);
+        }
         an.subframe(sf);
     }
     f.add(pts, an);
@@ -173,7 +180,7 @@ static void runCase(const std::vector<std::string>& lines) {
     std::map<int, Frame> reg;
     Param P;
     auto O = [&](int k) -> c3d& {
-        if (!obj.count(k) || !obj[k]) { fprintf(g_out, "script-error no-object %d\n", k); fflush(g_out); _exit(3); }
+        if (!obj.count(k) || !obj[k]) throw std::string("noobj");
         return *obj[k];
     };
     for (const std::string& line : lines) {
@@ -186,6 +193,20 @@ static void runCase(const std::vector<std::string>& lines) {
             GUARD(obj[k] = new c3d(path); fprintf(g_out, "ok\n"));
         }
         else if (cmd == "save") { int k = (int)tk.i64(); std::string path = g_own + "/" + tk.next(); GUARD(O(k).write(path); fprintf(g_out, "ok\n")); }
+        else if (cmd == "savefault") {   // save under an injected fault (C15): limit <n> = RLIMIT_FSIZE, path <p> = unwritable destination
+            int k = (int)tk.i64(); std::string mode = tk.next(); std::string arg = tk.next(); std::string path;
+            if (mode == "limit") {
+                path = g_own + "/" + tk.next();
+                signal(SIGXFSZ, SIG_IGN);
+                struct rlimit rl; rl.rlim_cur = rl.rlim_max = (rlim_t)strtoull(arg.c_str(), nullptr, 10); setrlimit(RLIMIT_FSIZE, &rl);
+            } else if (mode == "readonly") {
+                path = g_own + "/" + arg; { std::ofstream t(path); t << "x"; } chmod(path.c_str(), 0444);
+                if (geteuid() == 0) { if (setgid(65534) != 0 || setuid(65534) != 0) {} }   // root ignores permission bits
+            } else path = arg;
+            GUARD(O(k).write(path); fprintf(g_out, "ok\n"));
+            struct stat sb; long sz = -1; if (stat(path.c_str(), &sb) == 0 && S_ISREG(sb.st_mode)) sz = (long)sb.st_size;
+            fprintf(g_out, "disk %ld\n", sz);
+        }
         else if (cmd == "savex") { int k = (int)tk.i64(); std::string path = tk.next(); GUARD(O(k).write(path); fprintf(g_out, "ok\n")); }
         else if (cmd == "fsum") {   // size and FNV-1a of a file of the case's own directory
             std::string path = g_own + "/" + tk.next(); std::ifstream f(path, std::ios::binary);
